@@ -1,0 +1,42 @@
+//go:build verif
+
+package runtime
+
+// Verification hooks for the "num" engine (/verif properties C02, C16).
+// Add-only re-exports of unexported number operations; no behaviour of its own.
+
+// VerifLe is le (the <= operator).
+func VerifLe(t *Thread, x, y Value) (bool, error) { return le(t, x, y) }
+
+// VerifEq is eq (the == operator).
+func VerifEq(t *Thread, x, y Value) (bool, error) { return eq(t, x, y) }
+
+// VerifBand is band (the & operator).
+func VerifBand(t *Thread, x, y Value) (Value, error) { return band(t, x, y) }
+
+// VerifBor is bor (the | operator).
+func VerifBor(t *Thread, x, y Value) (Value, error) { return bor(t, x, y) }
+
+// VerifBxor is bxor (the ~ binary operator).
+func VerifBxor(t *Thread, x, y Value) (Value, error) { return bxor(t, x, y) }
+
+// VerifShl is shl (the << operator).
+func VerifShl(t *Thread, x, y Value) (Value, error) { return shl(t, x, y) }
+
+// VerifShr is shr (the >> operator).
+func VerifShr(t *Thread, x, y Value) (Value, error) { return shr(t, x, y) }
+
+// VerifBnot is bnot (the ~ unary operator).
+func VerifBnot(t *Thread, x Value) (Value, error) { return bnot(t, x) }
+
+// VerifFloordivInt is floordivInt.
+func VerifFloordivInt(x, y int64) int64 { return floordivInt(x, y) }
+
+// VerifModInt is modInt.
+func VerifModInt(x, y int64) int64 { return modInt(x, y) }
+
+// VerifModFloat is modFloat.
+func VerifModFloat(x, y float64) float64 { return modFloat(x, y) }
+
+// VerifNumIsLessThan is numIsLessThan (used by the advfor opcode).
+func VerifNumIsLessThan(x, y Value) bool { return numIsLessThan(x, y) }
